@@ -564,7 +564,15 @@ struct ResultKind {
       if (static_cast<bool>(*p) != h) c.line('X', "C13 operator bool disagrees with has_value()");
       return h ? "f1" : "f0";
     }
-    if (n == "err") return std::string("e") + (p->has_error() ? "1" : "0") + ":" + std::to_string(static_cast<int>(p->error()));
+    if (n == "err") {
+      // exactly one of empty / value / error: the error state carries an error, the others report none
+      const bool he = p->has_error(), hv = p->has_value();
+      const int code = static_cast<int>(p->error());
+      if (he && hv) c.line('X', "C13 result-both-value-and-error");
+      if (he && code == 0) c.line('X', "C13 error-state-without-an-error-code");
+      if (!he && code != 0) c.line('X', "C13 error-code-outside-the-error-state code=" + std::to_string(code));
+      return std::string("e") + (he ? "1" : "0") + ":" + std::to_string(code);
+    }
     if (n == "get") {
       if (o.how == 0) return "g" + elem_of(0, static_cast<const R*>(p)->get());
       if (o.how == 1) return "g" + elem_of(0, p->get());
